@@ -189,6 +189,30 @@ func checkC07(c *Ctx, r *Report) {
 							}
 						}
 					}
+					// ... or behind a library scan of the arguments whose
+					// "none found" edge is the one that reads the clock:
+					// slices.IndexFunc(times, nonZero) < 0
+					if !behind {
+						for _, p := range call.Block().Preds {
+							ifi, isIf := p.Instrs[len(p.Instrs)-1].(*ssa.If)
+							if !isIf || len(call.Block().Preds) != 1 {
+								continue
+							}
+							bo, isBO := ifi.Cond.(*ssa.BinOp)
+							if !isBO {
+								continue
+							}
+							for _, side := range []ssa.Value{bo.X, bo.Y} {
+								if sc, isSC := side.(*ssa.Call); isSC {
+									if o := calleeObj(sc); o != nil && (qualifiedName(o) == "slices.IndexFunc" || qualifiedName(o) == "slices.ContainsFunc") && len(sc.Call.Args) > 0 {
+										if _, isPrm := sc.Call.Args[0].(*ssa.Parameter); isPrm {
+											behind = true
+										}
+									}
+								}
+							}
+						}
+					}
 					okShape = returned && behind
 				}
 				r.Check(okShape, "T1-gate-shape", "the clock gate falls back to the clock only after every configured time was found zero", c.instrPos(h.In), why)
